@@ -60,6 +60,7 @@ pub fn run(case: &str) -> String {
             // mode M: both faces on one reader, read and fill_buf/consume taking turns
             if mode == "R" || (mode == "M" && idx % 2 == 0) {
                 match rd.read(&mut buf[..k]) {
+                    Ok(0) if k == 0 => {}   // an empty buffer: nothing read, nothing learnt
                     Ok(0) => { status = "EOF"; break; }
                     Ok(n) => out.extend_from_slice(&buf[..n]),
                     Err(_) => { status = "ERR"; break; }
@@ -143,7 +144,11 @@ fn sizes(rng: &mut Rng, need: usize) -> String {
         return format!("{}*{}", k0, need + 3);
     }
     let mut v = Vec::new();
+    // one mixed pattern in three also has zero-sized requests (an empty caller buffer / consume(0)): they deliver nothing and
+    // must neither fail nor be taken for the end of the body
+    let zeros = rng.chance(1, 3);
     for _ in 0..need + 3 {
+        if zeros && rng.chance(1, 4) { v.push("0".to_string()); }
         v.push(rng.pick(choices).to_string());
     }
     v.join(",")
@@ -154,7 +159,7 @@ pub fn gen(ctx: &Ctx) {
     let mut out = Out::new(&ctx.dir, "body");
     out.rule = "payloads (0..300 bytes mostly, some to 10000; thorough: 131073) in valid fixed-length and chunked encodings (chunk sizes 1 / whole / small / random, upper/lower-case \
                 hex with leading zeros, extensions, trailers); every leftover|stream split style and stream segmentation (whole, 1-byte, small, random); read sizes from \
-                {1,2,3,7,64,1000,4095,4096,4097,8192,70000} through Read and through BufRead; every truncation point and every single-byte corruption of small encodings; EOF-delimited bodies. \
+                {1,2,3,7,64,1000,4095,4096,4097,8192,70000} through Read and through BufRead and through both in turn on one reader, with zero-sized requests in between; every truncation point and every single-byte corruption of small encodings; EOF-delimited bodies. \
                 non-trivial = a non-empty payload was delivered".into();
     let mut emit = |out: &mut Out, kind: &str, data: &[u8], rng: &mut Rng, need: usize, class: &str| {
         let (lo, segs) = split_segs(rng, data);
